@@ -136,8 +136,13 @@ class Sched:
         n = 0
         while True:
             with self.cv:
+                waited = 0
                 while any(t.status in ("running", "new") for t in self.threads.values()):
-                    self.cv.wait()
+                    if not self.cv.wait(timeout=5):
+                        waited += 1
+                        if waited >= 4:
+                            raise Deadlock("a thread neither parks nor finishes (blocked on a primitive the harness does not control): %s"
+                                           % [(t.name, t.status, t.label) for t in self.threads.values()])
                 live = [t for t in self.threads.values() if t.status != "done"]
                 if not live:
                     return
